@@ -36,7 +36,8 @@ def _cfg(rng, scenario):
         "new_sample_thresh": rng.choice([1, 2, 3, 4, 8, 16]),
         "window_size_thresh": rng.randint(0, 12),
         "subwindow_size_thresh": rng.randint(1, 6),
-        "conservative_bound": rng.random() < 0.3,
+        # also as 0 / 1 (ints): any falsy value selects the normal-approximation bound
+        "conservative_bound": rng.choice([False, False, False, True, 0, 1]),
     }
     return cfg
 
